@@ -23,6 +23,10 @@ class DFSTraversePatch(Patch):
     def patch_dict(self, k, v, origin: dict):
         """Modify partial dictionary"""
 
+    def patch_key(self, k, origin: dict):
+        """Key of an entry whose value is a dict or a list (default: unchanged)"""
+        return k
+
     def apply(self, raw: dict) -> dict:
         return cast(dict, self._apply(raw, raw))
 
@@ -41,7 +45,7 @@ class DFSTraversePatch(Patch):
             if k in excluded_keys:
                 continue
             if isinstance(v, (dict, list)):
-                interpreted[k] = self._apply(v, origin)
+                interpreted[self.patch_key(k, origin)] = self._apply(v, origin)
             else:
                 patch = self.patch_dict(k, v, origin)
                 if patch is None:
@@ -108,6 +112,9 @@ class ArithmeticPatch(DFSTraversePatch):
 
     def patch_dict(self, k, v, origin: dict):
         return {self.evaluate(k): self.evaluate(v)}
+
+    def patch_key(self, k, origin: dict):
+        return self.evaluate(k)
 
     def evaluate(self, value):
         if not isinstance(value, str) or not self._is_target(value):
